@@ -60,10 +60,10 @@ type Target struct {
 	name            string             // name of the target
 	t               *ctree.Tree        // actual cache of target data
 	client          func(*ctree.Leaf)  // Function to pass all cache updates to.
-	sync            bool               // denotes whether this cache is in sync with target
+	sync            bool               // denotes whether this cache is in sync with target (guarded by tsmu)
 	meta            *metadata.Metadata // metadata associated with target
 	lat             *latency.Latency   // latency measurements
-	tsmu            sync.Mutex         // protects latest timestamp
+	tsmu            sync.Mutex         // protects latest timestamp and sync
 	ts              time.Time          // latest timestamp for an update
 	excludedMeta    stringset.Set      // set of metadata not to generate update for
 	futureThreshold time.Duration      // how far in the future an update can be accepted
@@ -490,6 +490,20 @@ func (t *Target) checkTimestamp(ts time.Time) {
 	}
 }
 
+// setSync and synced access the sync flag under tsmu: the periodic metadata
+// refresh updates it concurrently with the target's update stream reading it.
+func (t *Target) setSync(s bool) {
+	t.tsmu.Lock()
+	t.sync = s
+	t.tsmu.Unlock()
+}
+
+func (t *Target) synced() bool {
+	t.tsmu.Lock()
+	defer t.tsmu.Unlock()
+	return t.sync
+}
+
 func (t *Target) resetTimestamp() {
 	defer t.tsmu.Unlock()
 	t.tsmu.Lock()
@@ -517,8 +531,8 @@ func (t *Target) gnmiUpdate(n *pb.Notification) (*ctree.Leaf, error) {
 			if !ok {
 				return nil, fmt.Errorf("%v : has value %v of type %T, expected boolean", metadata.Path(metadata.Sync), u.Val, u.Val)
 			}
-			t.sync = tv.BoolVal
-			t.meta.SetBool(metadata.Sync, t.sync)
+			t.setSync(tv.BoolVal)
+			t.meta.SetBool(metadata.Sync, tv.BoolVal)
 		case metadata.Connected:
 			tv, ok := u.GetVal().GetValue().(*pb.TypedValue_BoolVal)
 			if !ok {
@@ -577,7 +591,7 @@ func (t *Target) gnmiUpdate(n *pb.Notification) (*ctree.Leaf, error) {
 			return nil, nil
 		}
 		// Compute latency for updated leaves.
-		if t.sync && realData {
+		if realData && t.synced() {
 			// Record latency for post-sync target updates.  Exclude metadata updates.
 			t.lat.Compute(T(n.GetTimestamp()))
 		}
@@ -591,7 +605,7 @@ func (t *Target) gnmiUpdate(n *pb.Notification) (*ctree.Leaf, error) {
 		t.meta.AddInt(metadata.LeafCount, 1)
 		t.meta.AddInt(metadata.AddCount, 1)
 		// Compute latency for new leaves.
-		if t.sync {
+		if t.synced() {
 			// Record latency for post-sync target updates.  Exclude metadata updates.
 			t.lat.Compute(T(n.GetTimestamp()))
 		}
